@@ -158,6 +158,53 @@ Section UFC.
   Qed.
 End UFC.
 
+(* ------------------------------------------------------------------ sequences of snapshots *)
+
+(** Any number of snapshots of the unedited file, whatever the executable bits found on disk:
+    after each of them the tree value is the original conflict and the stored marker length
+    is still the one the file was materialized with. *)
+Theorem wc_step_unchanged MH vals D eol L st_ labels hs x :
+  let ids := map (option_map fst) vals in
+  (3 <= length vals)%nat ->
+  old_merge MH ids = inr hs ->
+  DiffOk D -> EolOk eol -> LabelsOk labels ->
+  WfHunks (nsides (simplified_of ids)) hs -> Dominated L hs ->
+  wc_step MH (vals, Some L) (materialize_conflict_hunks D eol L hs st_ labels) x
+  = Some (vals, Some L).
+Proof.
+  intros ids Hlen Hm HD He Hl Hw Hd. unfold wc_step.
+  rewrite (snapshot_unchanged MH vals D eol L st_ labels hs x Hlen Hm HD He Hl Hw Hd).
+  assert (E : vals_eqb vals vals = true) by (apply vals_eqb_eq; reflexivity). rewrite E.
+  destruct vals as [|v1 [|v2 [|v3 r]]]; cbn [length] in Hlen; try lia. reflexivity.
+Qed.
+
+Theorem wc_run_unchanged MH vals D eol L st_ labels hs execs :
+  let ids := map (option_map fst) vals in
+  (3 <= length vals)%nat ->
+  old_merge MH ids = inr hs ->
+  DiffOk D -> EolOk eol -> LabelsOk labels ->
+  WfHunks (nsides (simplified_of ids)) hs -> Dominated L hs ->
+  wc_run MH (vals, Some L) (materialize_conflict_hunks D eol L hs st_ labels) execs
+  = map (fun _ => Some (vals, Some L)) execs.
+Proof.
+  intros ids Hlen Hm HD He Hl Hw Hd. induction execs as [|x t IH]; [reflexivity|].
+  cbn [wc_run map].
+  rewrite (wc_step_unchanged MH vals D eol L st_ labels hs x Hlen Hm HD He Hl Hw Hd).
+  rewrite IH. reflexivity.
+Qed.
+
+Theorem seq_okb_spec (c : case) :
+  seq_okb c = true <->
+  forall e, In e (c_seq c) -> snd (fst e) = Some (c_vals c) /\ snd e = Some (c_len c).
+Proof.
+  unfold seq_okb. rewrite forallb_forall. split; intros H e He; specialize (H e He).
+  - apply andb_prop in H. destruct H as [H1 H2].
+    apply (option_eqb_eq _ vals_eqb_eq) in H1. apply (option_eqb_eq _ N.eqb_eq) in H2. auto.
+  - destruct H as [H1 H2]. apply andb_true_intro. split.
+    + apply (option_eqb_eq _ vals_eqb_eq). exact H1.
+    + apply (option_eqb_eq _ N.eqb_eq). exact H2.
+Qed.
+
 (* ------------------------------------------------------------------ the per-case hypothesis checker *)
 
 Lemma hyps6_b_sound (c : case) hs :
